@@ -15,6 +15,8 @@ for d in sorted(glob.glob(os.path.join(V, 'seeded', '*'))):
         if r.get('caught') and any('no-failing-input-found' in l for l in r.get('lines', [])):
             kind = 'caught (tie broken, no failing input)'
         res.append(f'{c}: {kind}')
+    if m.get('neutralised_by'):
+        res = ['no longer breaks the property since repo fix ' + m['neutralised_by'].split(' ')[0] + ' (its demo passes with the change applied): check quiet, as it must be']
     rows.append(f'| {sid} | {m.get("property", "")} | {summ} | {"; ".join(res)} |')
 print('| seed | property | change | result of `./check` on the changed tree |\n|---|---|---|---|')
 print('\n'.join(rows))
